@@ -368,6 +368,11 @@ func execStep(txn *column.Txn, sch *Schema, live []bool, steps []Step, i int, re
 			}
 			writeStore(txn, row, sch.Cols[s.Col], s)
 		}
+		if st.AlsoKey != "" {
+			if err := txn.Key().Set(st.AlsoKey); err != nil {
+				panic(fmt.Sprintf("SetKey(%q) inside the callback of InsertKey(%q): %v", st.AlsoKey, st.Key, err))
+			}
+		}
 		if st.HasPeek {
 			_ = txn.QueryAt(st.Peek, func(pr column.Row) error { _ = pr.Index(); return nil })
 		}
@@ -411,7 +416,7 @@ func execStep(txn *column.Txn, sch *Schema, live []bool, steps []Step, i int, re
 // execDirect runs a single-step transaction through the collection-level
 // convenience methods (Insert, QueryAt, DeleteAt, InsertKey, ...).
 func execDirect(c *column.Collection, sch *Schema, live []bool, t TxnSpec) ([]StepResult, error, bool) {
-	if len(t.Steps) != 1 || t.FailAt >= 0 || t.Steps[0].HasPeek {
+	if len(t.Steps) != 1 || t.FailAt >= 0 || t.Steps[0].HasPeek || t.Steps[0].AlsoKey != "" {
 		return nil, nil, false
 	}
 	st := t.Steps[0]
